@@ -36,7 +36,7 @@ def run_one(m, scratch):
     with open(path, "w") as fh:
         fh.write(new)
     try:
-        env = dict(os.environ, VERIF_REPO=scratch)
+        env = dict(os.environ, VERIF_REPO=scratch, VERIF_OUT=os.path.join(scratch, "out"))
         r = subprocess.run([os.path.join(VERIF, "check"), m["property"], "--tier", "quick"], env=env,
                            capture_output=True, text=True, timeout=1800)
         out = r.stdout + r.stderr
